@@ -78,6 +78,10 @@ def steps_cmds(ctx, tier):
                     continue
                 pre = "I%d," % alpha[(i + j) % len(alpha)] if b[:3] in ("dwp", "che") else ""
                 cmds.append("steps b=%s klen=%d script=%sS%d,G,R,S%d,V\n" % (b, (16, 24, 32)[(i + j) % 3], pre, a, c))
+    # stream bundles: two short fragments inside one block, then data crossing the following blocks
+    for b in ("cfbE", "cfbD", "ctr", "dwpE", "cheE"):
+        for a, c in ((3, 2), (5, 11), (1, 15), (15, 1), (7, 9)):
+            cmds.append("steps b=%s klen=%d script=S%d,S%d,S43%s\n" % (b, (16, 24, 32)[(a + c) % 3], a, c, ",G" if b[:3] in ("dwp", "che") else ""))
     for b in ("ecbE", "ecbD", "cbcE", "cbcD"):
         for a in (16, 32, 48):
             for c in (16, 17, 31, 33):
